@@ -24,8 +24,9 @@
 #endif
 /* one reference of message M (pre-state pointer expression) was released: destroyed when it was
  * the last one, else exactly one count less; KEPT: untouched */
-#define PUB_RELEASED(M) (OLD((M)->m_refcnt.v) == 1 ? FREED(OLD(M)) : (!FREED(OLD(M)) && OLD(M)->m_refcnt.v == OLD((M)->m_refcnt.v) - 1))
-#define PUB_KEPT(M) (!FREED(OLD(M)) && OLD(M)->m_refcnt.v == OLD((M)->m_refcnt.v))
+#define PUB_BODY_SAME(M) (OLD(M)->m_body.ch_len == OLD((M)->m_body.ch_len) && OLD(M)->m_body.ch_cap == OLD((M)->m_body.ch_cap) && OLD(M)->m_body.ch_buf == OLD((M)->m_body.ch_buf) && OLD(M)->m_body.ch_ptr == OLD((M)->m_body.ch_ptr))
+#define PUB_RELEASED(M) (OLD((M)->m_refcnt.v) == 1 ? FREED(OLD(M)) : (!FREED(OLD(M)) && OLD(M)->m_refcnt.v == OLD((M)->m_refcnt.v) - 1 && PUB_BODY_SAME(M)))
+#define PUB_KEPT(M) (!FREED(OLD(M)) && OLD(M)->m_refcnt.v == OLD((M)->m_refcnt.v) && PUB_BODY_SAME(M))
 
 /* =====================================================================
  * pub0_sock_send (C05: one copy per subscriber pipe, a full transmit queue drops its OLDEST
@@ -123,7 +124,7 @@ __CPROVER_ensures(g_free_calls == OLD(g_free_calls) + 2 * (PS_SELF_DESTROYED PS_
 static void pub0_pipe_send_cb(void *arg)
 __CPROVER_requires(arg == g_pp0 && VP_NO_LOCK_HELD && PC_P->aio_send.a_result != 0)
 __CPROVER_requires(__CPROVER_is_fresh(PC_AM, sizeof(struct nng_msg)) && PUB_REF_OK(PC_AM) && CH_FULL_PRE(&PC_AM->m_body))
-__CPROVER_assigns(PC_AM, PC_AM->m_refcnt, VP_PROTO_GHOST_LIST, g_free_calls)
+__CPROVER_assigns(PC_AM, PC_AM->m_refcnt, PC_AM->m_body, VP_PROTO_GHOST_LIST, g_free_calls)
 __CPROVER_frees(PC_AM, PC_AM->m_body.ch_buf)
 /* send failed: the unsent copy is released exactly once, the aio no longer names it, the peer is
  * disconnected; nothing is sent, the queue is left to pub0_pipe_close */
@@ -162,7 +163,7 @@ __CPROVER_ensures(VP_NO_LOCK_HELD && g_pipe_close_calls == OLD(g_pipe_close_call
 static void pub0_pipe_recv_cb(void *arg)
 __CPROVER_requires(arg == g_pp0 && VP_NO_LOCK_HELD && PR_P->aio_recv.a_result == 0)
 __CPROVER_requires(__CPROVER_is_fresh(PR_M, sizeof(struct nng_msg)) && PUB_REF_OK(PR_M) && CH_FULL_PRE(&PR_M->m_body))
-__CPROVER_assigns(PR_M->m_refcnt, VP_PROTO_GHOST_LIST, g_free_calls)
+__CPROVER_assigns(PR_M->m_refcnt, PR_M->m_body, VP_PROTO_GHOST_LIST, g_free_calls)
 __CPROVER_frees(PR_M, PR_M->m_body.ch_buf)
 /* the message is released exactly once, the pipe is closed, no further receive is started */
 __CPROVER_ensures(VP_NO_LOCK_HELD && PUB_RELEASED(PR_M))
@@ -275,24 +276,34 @@ __CPROVER_ensures(g_pipe_peer != NNI_PROTO_SUB_V0 ==> (RV == NNG_EPROTO && PUB_L
 __CPROVER_ensures(g_pipe_peer == NNI_PROTO_SUB_V0 ==> (RV == 0 && PUB_LIST_IS(g_np + 1) && g_pipe_recv_calls == OLD(g_pipe_recv_calls) + 1 && g_pipe_recv_pipe == PT_P->pipe && g_pipe_recv_aio == &PT_P->aio_recv))
 ;
 
-/* pub0_pipe_close: any of the three pipes (attached iff its number < g_np) */
-#define PX_P ((pub0_pipe *) arg)
-#define PX_IDX ((size_t) (arg == g_pp0 ? 0 : (arg == g_pp1 ? 1 : 2)))
+/* pub0_pipe_close: any of the three pipes (attached iff its number < g_np); case split by
+ * PUB_CLOSE_IDX over the pipe under contract */
+#ifndef PUB_CLOSE_IDX
+#define PUB_CLOSE_IDX 0
+#endif
+#if PUB_CLOSE_IDX == 0
+#define PX_P g_pp0
+#elif PUB_CLOSE_IDX == 1
+#define PX_P g_pp1
+#else
+#define PX_P g_pp2
+#endif
+#define PX_IDX ((size_t) PUB_CLOSE_IDX)
 #define PX_ATTACHED (PX_IDX < g_np)
 #define PX_SLOT(k) (PX_P->sendq.lmq_msgs[k])
 #define PX_SLOT_FREES(k) __CPROVER_frees(PX_SLOT(k), PX_SLOT(k)->m_body.ch_buf)
 static void pub0_pipe_close(void *arg)
-__CPROVER_requires((arg == g_pp0 || arg == g_pp1 || arg == g_pp2) && g_np <= 3 && VP_NO_LOCK_HELD && PUB_LMQ_PRE(PQ(PX_P)))
+__CPROVER_requires(arg == PX_P && g_np <= 3 && VP_NO_LOCK_HELD && PUB_LMQ_PRE(PQ(PX_P)))
 /* every queued entry holds a reference */
 __CPROVER_requires(PUB_REF_OK(PX_SLOT(0)) && PUB_REF_OK(PX_SLOT(1)))
 #ifndef PUB_INLINE
 __CPROVER_requires(PUB_REF_OK(PX_SLOT(2)) && PUB_REF_OK(PX_SLOT(3)))
 #endif
 __CPROVER_assigns(PX_P->closed, PX_P->sendq.lmq_get, PX_P->sendq.lmq_len, VP_PROTO_GHOST_LIST, VP_SYNC_GHOSTS, g_free_calls, g_s->pipes.ll_head, g_pp0->node, g_pp1->node, g_pp2->node)
-__CPROVER_assigns(PX_SLOT(0)->m_refcnt, PX_SLOT(1)->m_refcnt)
+__CPROVER_assigns(PX_SLOT(0)->m_refcnt, PX_SLOT(1)->m_refcnt, PX_SLOT(0)->m_body, PX_SLOT(1)->m_body)
 PX_SLOT_FREES(0) PX_SLOT_FREES(1)
 #ifndef PUB_INLINE
-__CPROVER_assigns(PX_SLOT(2)->m_refcnt, PX_SLOT(3)->m_refcnt)
+__CPROVER_assigns(PX_SLOT(2)->m_refcnt, PX_SLOT(3)->m_refcnt, PX_SLOT(2)->m_body, PX_SLOT(3)->m_body)
 PX_SLOT_FREES(2) PX_SLOT_FREES(3)
 #endif
 __CPROVER_ensures(VP_NO_LOCK_HELD && PX_P->closed && g_aio_close_calls == OLD(g_aio_close_calls) + 2)
